@@ -238,6 +238,7 @@ func valueUniverse() []interface{} {
 		l(), l(int64(1)), l(1.0), l(int64(1), int64(2)), l(int64(1), "a"), l(nil), l(l()), l(int64(2)),
 		m(), m("a", int64(1)), m("a", 1.0), m("a", int64(2)), m("b", int64(1)), m("a", int64(1), "b", int64(1)),
 		m("a", nil), m("a", m()), m("a", int64(1), "c", int64(1)), m("ab", int64(0)),
+		m("b", nil), m("a", int64(1), "b", nil), m("a", int64(1), "c", nil), m("a", nil, "b", nil),
 	}
 }
 
